@@ -537,6 +537,21 @@ def _type_check_field_existence_condition(field, source_file_name, errors):
     )
 
 
+def _type_check_enum_value(enum_value, source_file_name, errors):
+    # `TEN = 10` and `TEN = TEN2` are values; `ON = true` is not.
+    value_type = ir_data_utils.reader(enum_value.value).type.which_type
+    if value_type not in ("integer", "enumeration"):
+        errors.append(
+            [
+                error.error(
+                    source_file_name,
+                    enum_value.value.source_location,
+                    "Enum value must be an integer or enum.",
+                )
+            ]
+        )
+
+
 def _type_name_for_error_messages(expression_type):
     if expression_type.which_type == "integer":
         return "integer"
@@ -693,6 +708,12 @@ def check_types(ir):
         ir,
         [ir_data.Field],
         _type_check_field_existence_condition,
+        parameters={"errors": errors},
+    )
+    traverse_ir.fast_traverse_ir_top_down(
+        ir,
+        [ir_data.EnumValue],
+        _type_check_enum_value,
         parameters={"errors": errors},
     )
     traverse_ir.fast_traverse_ir_top_down(
